@@ -3,6 +3,7 @@ import fcntl
 import os
 import re
 import subprocess
+import sys
 import time
 
 from . import env
@@ -136,20 +137,17 @@ def check_property(prop, gen=()):
     # behind by a run against another tree - e.g. a scratch worktree with an edited data file - must never be compiled
     # into this run).  They rewrite a file only when its content changes.  Fail closed for the property's own
     # translators (gen) and, below, for any failure when the property's cone contains a generated file.
-    import importlib
-    import pkgutil
-    from .. import translate as _tr
+    # (run in a child interpreter: a translator may import lingpy, which some checks must not have imported yet)
     failed = {}
     with lock():
-        for m in sorted(pkgutil.iter_modules(_tr.__path__), key=lambda m: m.name):
-            if m.name.startswith("_"):
-                continue
-            try:
-                mod = importlib.import_module("harness.translate." + m.name)
-                if hasattr(mod, "generate"):
-                    mod.generate()
-            except Exception as e:
-                failed["harness.translate." + m.name] = "%s: %s" % (type(e).__name__, e)
+        p = subprocess.run([sys.executable, "-m", "harness.translate"], cwd=env.VERIF, capture_output=True, text=True,
+                           env=dict(os.environ, PYTHONPATH=env.VERIF + os.pathsep + os.environ.get("PYTHONPATH", "")))
+    for line in (p.stdout + p.stderr).splitlines():
+        m = re.match(r"TRANSLATOR FAILED: (\w+): (.*)", line)
+        if m:
+            failed["harness.translate." + m.group(1)] = m.group(2)
+    if p.returncode != 0 and not failed:
+        failed["harness.translate"] = (p.stdout + p.stderr)[-400:]
     for g in gen:
         if getattr(g, "__module__", None) in failed:
             res["broken"].append("translator %s: %s" % (g.__module__, failed[g.__module__]))
